@@ -2,6 +2,7 @@
 from __future__ import annotations
 
 import ast
+import os
 from typing import Dict, List, Optional, Tuple
 
 from .. import anchors as A
@@ -261,6 +262,7 @@ def check(P: Project, R: Report) -> None:
     exits = [("return", st, n) for st, n in out.ret] + [("end", st, send.node) for st in out.normal]
     R.need(exits, "send routine has no normal exit")
     classes = {}
+    _handler_vars = None
     for kind, st, node in exits:
         evs = list(st.events)
         if "post" not in evs:
@@ -279,7 +281,12 @@ def check(P: Project, R: Report) -> None:
                                 ("startswith('event:')", "sse-looking"), ("not response", "empty-body")):
                 if needle in l and not (l.startswith("not ") and needle.startswith("'")):
                     tags.append(tag)
-        caught = [v for k, v in st.env if k in ("e",)]
+        # the path went through an except arm (whatever the handler variable is called)
+        handler_vars = _handler_vars if _handler_vars is not None else {h.name for t_ in walk_local(send.node) if isinstance(t_, ast.Try) and any(isinstance(c_, ast.Call) and (call_name(c_).endswith(".post") or P.resolve_call(send, c_) is router or (isinstance(P.resolve_call(send, c_), FuncInfo) and P.resolve_call(send, c_).fq in helper_summary)) for b_ in t_.body for c_ in walk_local(b_)) for h in t_.handlers if h.name}
+        _handler_vars = handler_vars
+        caught = [v for k, v in st.env if k in handler_vars]
+        if os.environ.get("VERIF_DEBUG_C11") and caught and deliver:
+            print("DEBUG caught", caught, "env", [k for k, _v in st.env], "events", list(st.events)[-6:], "node", getattr(node, "lineno", None))
         sig = (tuple(sorted(set(tags))), bool(caught), tuple(synth), bool(deliver), tuple(m.split(":")[1] for m in maybe), notification)
         classes.setdefault(sig, (st, node))
     R.extra["exit_classes_after_post"] = len(classes)
